@@ -373,9 +373,11 @@ func check(r *core.Run) {
 	r.DirectionA("determ", core.TLCOpts{Module: "MCSession", Cfg: "MCSession_loads.cfg", Workers: 12, HeapGB: 16, Timeout: 0}, func(i int64, body string) bool {
 		return strings.Count(body, `"op":"process"`) == 1 && strings.Count(body, `"ok":true,"op":"load"`) >= 2
 	})
-	r.DirectionA("determ", core.TLCOpts{Module: "MCSession", Cfg: "MCSession_loads2.cfg", Workers: 12, HeapGB: 16, Timeout: 0}, func(i int64, body string) bool {
-		return strings.Count(body, `"op":"process"`) == 1 && strings.Count(body, `"ok":true,"op":"load"`) >= 2
-	})
+	for _, lc := range []string{"MCSession_loads2.cfg", "MCSession_loads3.cfg"} {
+		r.DirectionA("determ", core.TLCOpts{Module: "MCSession", Cfg: lc, Workers: 12, HeapGB: 16, Timeout: 0}, func(i int64, body string) bool {
+			return strings.Count(body, `"op":"process"`) == 1 && strings.Count(body, `"ok":true,"op":"load"`) >= 2
+		})
+	}
 	r.ValidateTrace("determ", col, core.TLCOpts{Module: "ErrorsTrace", Cfg: "ErrorsTrace.cfg", Timeout: 0})
 	if bin != "" {
 		// two revisions of one module on the command line: the rendering is that of the latest, in every run
